@@ -69,7 +69,12 @@ pub fn matches_dockerignore_filter(
 ) -> bool {
     let mut matched = false;
 
+    // a backslash is a separator on Windows only, elsewhere it is a character of the name
+    #[cfg(windows)]
     let file_name = file_name.to_string().replace("\\", "/").replace("//", "/");
+
+    #[cfg(not(windows))]
+    let file_name = file_name.to_string().replace("//", "/");
 
     // as in Docker: the last matching pattern decides, and a pattern that matches a parent
     // directory applies to everything below it
@@ -102,14 +107,19 @@ fn parse_dockerignore(
         let reader = BufReader::new(file);
         reader
             .lines()
-            .filter(|line| match line {
-                Ok(line) => !line.trim().is_empty() && !line.starts_with("#"),
-                _ => false,
-            })
-            .for_each(|line| {
+            .enumerate()
+            .for_each(|(number, line)| {
                 if err.is_empty() {
                     if let Ok(line) = line {
-                        let pattern = convert_dockerignore_pattern(&line, dir_path);
+                        // a byte order mark in front of the first line is no part of its pattern
+                        let line = match number {
+                            0 => line.trim_start_matches('\u{feff}'),
+                            _ => line.as_str(),
+                        };
+                        if line.trim().is_empty() || line.starts_with('#') {
+                            return;
+                        }
+                        let pattern = convert_dockerignore_pattern(line, dir_path);
                         match pattern {
                             Ok(pattern) => result.push(pattern),
                             Err(parse_err) => err = parse_err,
@@ -129,11 +139,12 @@ fn convert_dockerignore_pattern(
     pattern: &str,
     file_path: &Path,
 ) -> Result<DockerignoreFilter, String> {
-    let mut pattern = String::from(pattern);
+    // as Docker reads the line: blanks around the pattern and around the `!` do not count
+    let mut pattern = String::from(pattern.trim());
 
     let mut negate = false;
     if pattern.starts_with("!") {
-        pattern = pattern[1..].to_string();
+        pattern = pattern[1..].trim().to_string();
         negate = true;
     }
 
@@ -152,7 +163,21 @@ static DOCKER_CONVERT_REPLACE_REGEX: LazyLock<Regex> = LazyLock::new(|| {
 /// Patterns are rooted at the directory of the .dockerignore file: `*` and `?` do not cross
 /// a `/`, `**` does; leading and trailing slashes are not significant.
 fn convert_dockerignore_glob(glob: &str, file_path: &Path) -> Result<Regex, Error> {
-    let glob = glob.trim().trim_matches(|c| c == '/' || c == '\\');
+    // the pattern is cleaned like a path: `./a`, `a//b` and `a/x/../b` are `a`, `a/b` and `a/b`
+    #[cfg(windows)]
+    let glob = glob.replace("\\", "/");
+    let mut components: Vec<&str> = vec![];
+    for component in glob.trim().split('/') {
+        match component {
+            "" | "." => {}
+            ".." if components.last().is_some_and(|last| *last != "..") => {
+                components.pop();
+            }
+            _ => components.push(component),
+        }
+    }
+    let glob = components.join("/");
+    let glob = glob.as_str();
 
     let pattern = DOCKER_CONVERT_REPLACE_REGEX
         .replace_all(glob, |c: &Captures| match c.index(0) {
